@@ -287,8 +287,14 @@ class DebControl(DebPart):
             newline = b'\r\n'
 
         for line in md5_file.readlines():
-            # we need to support spaces in filenames, .split() is not enough
-            md5, fname = line.rstrip(newline).split(None, 1)  # type: ignore
+            # we need to support spaces in filenames, .split() is not enough:
+            # the digest is followed by two characters (as written by
+            # md5sum(1)); blanks after them belong to the file name
+            entry = line.rstrip(newline)  # type: ignore
+            md5 = entry.split(None, 1)[0]
+            fname = entry[len(md5) + 1:]
+            if fname[:1] in (' ', '*', b' ', b'*'):
+                fname = fname[1:]
             if isinstance(md5, bytes):
                 sums[fname] = md5.decode()
             else:
